@@ -48,6 +48,9 @@ def substring_bound_rule(prog, run, rid):
 
 def check(ctx, run):
     prog = ctx.program()
+    DEEP = 1 if ctx.thorough else 0      # thorough tier: one more character in every folded string domain
+    if DEEP:
+        run.configs.append("thorough: folded string domains one character longer (replace up to 5 chars, primitives up to 3/4)")
     run.assume("char is signed 8-bit on the analysed target; the string allocator returns blocks of at least the requested size")
     run.not_decided.append("that every operation returns the result of its textbook definition for ALL byte strings and positions (functional correctness over unbounded data); decided: ownership/size pairing of every buffer, absence of unsigned wrap in every index/length computation, agreement of the printable size pre-computation with the writer for every char value, bounded copies, NUL-bounded scans, classifier tables")
     run.rule("R1", "buffer ownership and size pairing: buffer_/bufferSize_ written only by the internal-buffer family, each pairing size N with a buffer allocated with N; every setter releases the old buffer first with its recorded size; setInternalBufferTo receives buffers allocated with the same size variable; formatted construction allocates and frees with one variable", floor=14)
@@ -345,7 +348,7 @@ def check(ctx, run):
                 return None, "the new buffer is not NUL-terminated inside its %d bytes" % allocs[0]
             return got, None
         bad, ncase, unk = None, 0, None
-        for L in range(0, 5):
+        for L in range(0, 5 + DEEP):
             for s_ in map("".join, itertools.product("ab", repeat=L)):
                 for t_ in ("", "a", "b", "aa", "ab", "ba", "bb"):
                     for w_ in ("", "a", "ab", "bbb"):
@@ -563,8 +566,8 @@ def check(ctx, run):
         return "".join(chr(ub(c)) if 32 <= ub(c) < 127 else "\\x%02X" % ub(c) for c in v)
 
     def cmp_cases(f):
-        for a_ in strings(2):
-            for b_ in strings(2):
+        for a_ in strings(2 + DEEP):
+            for b_ in strings(2 + DEEP):
                 env = {f.params[0]["name"]: ("ptr", "A", 0), f.params[1]["name"]: ("ptr", "B", 0)}
                 put(env, "A", a_)
                 put(env, "B", b_)
@@ -573,8 +576,8 @@ def check(ctx, run):
     prim_rule("StrCmp", cmp_cases, "reads stop at the first NUL, sign = comparison of the first differing bytes as unsigned char")
 
     def ncmp_cases(f):
-        for a_ in strings(2):
-            for b_ in strings(2):
+        for a_ in strings(2 + DEEP):
+            for b_ in strings(2 + DEEP):
                 for n_ in (0, 1, 2, 3):
                     env = {f.params[0]["name"]: ("ptr", "A", 0), f.params[1]["name"]: ("ptr", "B", 0), f.params[2]["name"]: n_}
                     put(env, "A", a_)
@@ -585,14 +588,14 @@ def check(ctx, run):
     prim_rule("StrNCmp", ncmp_cases, "at most n bytes compared, reads stop at the first NUL")
 
     def len_cases(f):
-        for a_ in strings(3, (97, HI)):
+        for a_ in strings(3 + DEEP, (97, HI)):
             env = {f.params[0]["name"]: ("ptr", "A", 0)}
             put(env, "A", a_)
             yield '"%s"' % show(a_), env, (lambda r, ev, L=len(a_): "" if r == L else "folds to %s, expected %d" % (r, L))
     prim_rule("StrLen", len_cases, "counts up to the first NUL and reads nothing behind it")
 
     def str_cases(f):
-        for a_ in strings(3, (97, 98)):
+        for a_ in strings(3 + DEEP, (97, 98)):
             for b_ in strings(2, (97, 98)):
                 env = {f.params[0]["name"]: ("ptr", "A", 0), f.params[1]["name"]: ("ptr", "B", 0)}
                 put(env, "A", a_)
@@ -603,7 +606,7 @@ def check(ctx, run):
     prim_rule("StrStr", str_cases, "first occurrence or NULL; reads inside both strings only")
 
     def cpy_cases(f):
-        for b_ in strings(3, (97, HI)):
+        for b_ in strings(3 + DEEP, (97, HI)):
             for n_ in (0, 1, 2, 3, 4, 6):
                 env = {f.params[0]["name"]: ("ptr", "D", 0), f.params[1]["name"]: ("ptr", "B", 0), f.params[2]["name"]: n_}
                 put(env, "B", b_)
@@ -676,7 +679,7 @@ def check(ctx, run):
     run.ob("R5", "MemCmp folded on all blocks of 0..2 bytes over {0,1,255}: reads only the first n bytes, sign = first differing unsigned byte", mc.site, bad is None, witness=bad or "%d cases" % ncase,
            what="" if bad is None else "MemCmp(%s, %s, %d) folds to %s" % (bad["a"], bad["b"], bad["n"], bad["folded"]))
     def find_cases(f):
-        for a_ in strings(3, (97, 98)):
+        for a_ in strings(3 + DEEP, (97, 98)):
             for st_ in range(0, len(a_) + 3):
                 for ch in (97, 98):
                     env = {"buffer_": ("ptr", "S", 0), "bufferSize_": len(a_) + 1, f.params[0]["name"]: st_, f.params[1]["name"]: ch}
